@@ -304,9 +304,10 @@ class AbstractCircuit(abc.ABC):
         args = []
         if self.moments:
             args.append(_list_repr_with_indented_item_lines(self.moments))
-        moments_repr = f'{", ".join(args)}'
-        tag_repr = ','.join(_compat.proper_repr(t) for t in self.tags)
-        return f'{moments_repr}, tags=[{tag_repr}]' if self.tags else moments_repr
+        if self.tags:
+            tag_repr = ','.join(_compat.proper_repr(t) for t in self.tags)
+            args.append(f'tags=[{tag_repr}]')
+        return ', '.join(args)
 
     def __repr__(self) -> str:
         cls_name = self.__class__.__name__
